@@ -196,6 +196,9 @@ impl Parser {
             parse_errors: parse_errors.clone(),
         }));
         let r = match prsr.start() {
+            // The tree of a text with syntax errors contains error nodes the visitor cannot
+            // lower; the collected syntax errors are reported below instead.
+            Ok(_) if !parse_errors.borrow().is_empty() => Ok(IdedExpr::default()),
             Ok(t) => Ok(self.visit(t.deref())),
             Err(e) => Err(ParseError {
                 source: Some(Box::new(e)),
@@ -371,7 +374,8 @@ impl<'a, T: Recognizer<'a>> ErrorListener<'a, T> for ParserErrorListener {
     ) {
         match offending_symbol {
             Some(offending_symbol)
-                if offending_symbol.get_token_type() == gen::cellexer::WHITESPACE => {}
+                if offending_symbol.get_token_type() == gen::cellexer::WHITESPACE
+                    && msg.starts_with("extraneous input") => {}
             _ => self.parse_errors.borrow_mut().push(ParseError {
                 source: None,
                 pos: (line, column + 1),
